@@ -75,16 +75,14 @@ def gen_forest(rng):
 def linearisable(defs, name, extra):
     """Would every class this column name carries so far accept `extra` mixed in front? (generation only)"""
     import maflib.column_types as CT
-    classes = set()
-    for d in defs:
-        for n, t in d["columns"]:
-            if n == name:
-                classes.add(t)
-    if len(classes) != 1:
-        return False          # already redefined somewhere: keep it simple
-    base = getattr(CT, next(iter(classes)))
+    # the classes the name has carried so far, oldest first (a redefinition of a redefinition is allowed)
+    chain = [t for d in defs for n, t in d["columns"] if n == name]
+    if not chain or extra in chain:
+        return False
     try:
-        type("probe", (getattr(CT, extra), base), {})
+        cls = getattr(CT, chain[0])
+        for t in chain[1:] + [extra]:
+            cls = type(cls.__name__, (getattr(CT, t), cls), {})
         return True
     except TypeError:
         return False
@@ -151,6 +149,16 @@ def expected_layout(defs, ann, seen=()):
     return names
 
 
+def type_chain(defs, ann, name):
+    """The types column `name` has been given along the inheritance path of `ann`, oldest first."""
+    d = [x for x in defs if x["annotation"] == ann][0]
+    chain = type_chain(defs, d["extends"], name) if d["extends"] else []
+    chain = chain + [t for n, t in d["columns"] if n == name]
+    if d["filtered"] is not None and name in d["filtered"]:
+        return []          # the column is removed here; a later definition may introduce the name afresh
+    return chain
+
+
 def should_reject(defs):
     anns = [d["annotation"] for d in defs]
     if len(set(anns)) != len(anns):
@@ -215,6 +223,14 @@ def run(ctx):
                         out.failures.append(dict(where, what="layout of %s is not 'base layout without filtered columns, then new columns'" % s["annotation"],
                                                  kind="layout", expected=want, got=s["names"]))
                         break
+                    # every constraint given to a column along the inheritance path is still enforced: each class of the
+                    # chain is in the MRO of the resolved class, the most recent redefinition first
+                    for n, mro in zip(s["names"], s["mros"]):
+                        chain = type_chain(defs, s["annotation"], n)
+                        if any(t not in mro for t in chain):
+                            out.failures.append(dict(where, what="column %s of %s lost a constraint of its inheritance chain %s" % (n, s["annotation"], chain),
+                                                     kind="override-lost", got=mro))
+                            break
                     # a redefined column keeps the inherited class behind the added one
                     for n, mro in zip(s["names"], s["mros"]):
                         d = [x for x in defs if x["annotation"] == s["annotation"]][0]
